@@ -35,9 +35,12 @@ if demo.endswith(".go"):
     rc_without, o2 = sh("go test -vet=off -count=1 -run 'Seeded|Demo' . 2>&1 | tail -2", wt)
     sh("git apply seeded_patch.diff", wt)
 else:
-    rc_with, o1 = sh("bash seeded_demo.sh > /tmp/keep_demo.out 2>&1; echo rc=$?", wt)
+    # demos that use pre-built binaries: rebuild them for each direction
+    bindir = os.path.join(os.path.dirname(wt), "bin_" + os.path.basename(wt))
+    rebuild = ("go build -o %s/ ./cmd/... ; " % bindir) if os.path.isdir(bindir) else ""
+    rc_with, o1 = sh(rebuild + "bash seeded_demo.sh > /tmp/keep_demo.out 2>&1; echo rc=$?", wt)
     sh("git apply -R seeded_patch.diff", wt)
-    rc_without, o2 = sh("bash seeded_demo.sh > /tmp/keep_demo.out 2>&1; echo rc=$?", wt)
+    rc_without, o2 = sh(rebuild + "bash seeded_demo.sh > /tmp/keep_demo.out 2>&1; echo rc=$?", wt)
     sh("git apply seeded_patch.diff", wt)
 ran.append(("demo with change", o1.strip()))
 ran.append(("demo without change", o2.strip()))
